@@ -445,3 +445,198 @@ theorem obs_visitOL (s : Bool) : ∀ (x : Option (List Node)) (st : St), okAtOL 
 end
 
 end Heph.TransKotlin
+
+namespace Heph.TransKotlin
+open Heph
+
+/-! ## consequences for whole programs -/
+
+mutual
+theorem okAt_false : ∀ n : Node, okAt false n = true
+  | .block body _ => by simp only [okAt, okAtL_false body]
+  | .superInst _ args => by simp only [okAt, okAtOL_false args]
+  | .classDecl _ _ _ fields supers funcs _ => by
+      simp only [okAt, okAtL_false fields, okAtL_false supers, okAtL_false funcs, Bool.and_self]
+  | .varDecl _ expr _ _ _ => by simp only [okAt, okAt_false expr]
+  | .callArg expr _ => by simp only [okAt, okAt_false expr]
+  | .paramDecl _ _ _ dflt => by simp only [okAt, okAtO_false dflt]
+  | .funcDecl _ params _ _ body _ _ _ _ => by simp only [okAt, okAtL_false params, okAtO_false body, Bool.and_self]
+  | .lambda _ params _ body _ => by simp only [okAt, okAtL_false params, okAt_false body, Bool.and_self]
+  | .funcRef _ receiver _ => by simp only [okAt, okAtO_false receiver]
+  | .arrayE _ _ exprs => by simp only [okAt, okAtL_false exprs]
+  | .binop _ l r _ => by simp only [okAt, okAt_false l, okAt_false r, Bool.and_self]
+  | .cond c t f _ => by simp [okAt, okAt_false c, okAt_false t, okAt_false f]
+  | .isE e _ _ => by simp only [okAt, okAt_false e]
+  | .newE _ args _ => by simp only [okAt, okAtL_false args]
+  | .fieldAccess e _ => by simp only [okAt, okAt_false e]
+  | .call _ args receiver _ _ _ => by simp only [okAt, okAtO_false receiver, okAtL_false args, Bool.and_self]
+  | .assign _ expr receiver => by simp only [okAt, okAtO_false receiver, okAt_false expr, Bool.and_self]
+  | .fieldDecl .. | .bottom _ | .intC _ _ | .realC _ _ | .boolC _ | .charC _ | .stringC _ | .variable _ => by
+      simp only [okAt]
+theorem okAtL_false : ∀ ns : List Node, okAtL false ns = true
+  | [] => rfl
+  | x :: xs => by simp only [okAtL, okAt_false x, okAtL_false xs, Bool.and_self]
+theorem okAtO_false : ∀ x : Option Node, okAtO false x = true
+  | none => rfl
+  | some x => by simp only [okAtO, okAt_false x]
+theorem okAtOL_false : ∀ x : Option (List Node), okAtOL false x = true
+  | none => rfl
+  | some xs => by simp only [okAtOL, okAtL_false xs]
+end
+
+theorem obs_programDoc (s : Bool) (ob : Obj) (p : Program) (h : okAtL s p.decls = true) :
+    obs s (programDoc ob p).2 = obs s (semProgram p) := by
+  simp only [programDoc, obs_append, obs_o, obs_joinD, List.nil_append, semProgram]
+  exact obs_visitL s p.decls _ h
+
+/-! ## `sem` has no layout pieces, and its declaration tags are the inventory -/
+
+def noOther (d : Doc) : Bool := d.all fun p => p.1 != Tag.other
+
+@[simp] theorem noOther_nil : noOther [] = true := rfl
+@[simp] theorem noOther_append (a b : Doc) : noOther (a ++ b) = (noOther a && noOther b) := by simp [noOther]
+@[simp] theorem noOther_cons (p : Piece) (d : Doc) : noOther (p :: d) = (p.1 != Tag.other && noOther d) := by
+  simp [noOther]
+
+theorem obs_true_noOther : ∀ d : Doc, noOther d = true → obs true d = d
+  | [], _ => rfl
+  | (t, x) :: d, h => by
+      simp only [noOther_cons, Bool.and_eq_true, bne_iff_ne, ne_eq] at h
+      rw [obs_cons_tag true t x d h.1, obs_true_noOther d h.2]; rfl
+
+theorem noOther_tparams (tps : List Ty) : noOther (tparamPieces tps) = true := by
+  induction tps with
+  | nil => rfl
+  | cons t r ih => simp_all [tparamPieces, noOther]
+
+theorem declTags_append (a b : Doc) : declTags (a ++ b) = declTags a ++ declTags b := by simp [declTags]
+@[simp] theorem declTags_nil : declTags [] = [] := rfl
+theorem declTags_cons (p : Piece) (d : Doc) :
+    declTags (p :: d) = (if isDeclTag p.1 then [p.1] else []) ++ declTags d := by
+  simp only [declTags, List.map_cons, List.filter_cons]; split <;> simp
+
+theorem declTags_tparams (tps : List Ty) : declTags (tparamPieces tps) = tparamTags tps := by
+  induction tps with
+  | nil => rfl
+  | cons t r ih =>
+    simp only [tparamPieces, List.map_cons, tparamTags] at ih ⊢
+    rw [declTags_cons, ih]; simp [isDeclTag]
+
+/-- the declaration tags survive `obs` (layout pieces carry none, texts do not matter) -/
+theorem declTags_obs (s : Bool) : ∀ d : Doc, declTags (obs s d) = declTags d
+  | [] => rfl
+  | (t, x) :: d => by
+      by_cases h : t = Tag.other
+      · subst h; rw [obs_cons_other, declTags_cons, declTags_obs s d]; simp [isDeclTag]
+      · rw [obs_cons_tag s t x d h, declTags_cons, declTags_cons, declTags_obs s d]
+
+end Heph.TransKotlin
+
+namespace Heph.TransKotlin
+open Heph
+set_option linter.unusedSimpArgs false
+
+mutual
+theorem declTags_sem : ∀ n : Node, declTags (sem n) = inv n
+  | .block body _ => by simp only [sem, inv, declTags_semL body]
+  | .superInst _ args => by simp [sem, inv, declTags_cons, isDeclTag, declTags_semOL args]
+  | .classDecl _ _ _ fields supers funcs tps => by
+      simp [sem, inv, declTags_cons, declTags_append, isDeclTag, declTags_semL fields, declTags_semL supers,
+        declTags_semL funcs, declTags_tparams]
+  | .varDecl _ expr _ vt _ => by
+      cases vt <;> simp [sem, inv, declTags_cons, declTags_append, isDeclTag, declTags_sem expr]
+  | .callArg expr name => by
+      simp only [sem, inv, declTags_append, declTags_sem expr]
+      split
+      · split <;> simp [declTags_cons, isDeclTag]
+      · simp
+  | .fieldDecl .. => by simp [sem, inv, declTags_cons, isDeclTag]
+  | .paramDecl _ _ _ dflt => by simp [sem, inv, declTags_cons, isDeclTag, declTags_semO dflt]
+  | .funcDecl _ params rt _ body _ _ tps _ => by
+      cases rt <;> simp [sem, inv, declTags_cons, declTags_append, isDeclTag, declTags_semL params,
+        declTags_semO body, declTags_tparams]
+  | .lambda _ params rt body _ => by
+      cases rt <;> cases hb : isBlock (some body) <;>
+        simp [sem, inv, hb, declTags_cons, declTags_append, isDeclTag, declTags_semL params, declTags_sem body]
+  | .funcRef _ receiver _ => by simp [sem, inv, declTags_cons, declTags_append, isDeclTag, declTags_semO receiver]
+  | .bottom t => by cases t <;> simp [sem, inv, declTags_cons, isDeclTag]
+  | .intC .. => by simp [sem, inv, declTags_cons, isDeclTag]
+  | .realC .. => by simp [sem, inv, declTags_cons, isDeclTag]
+  | .boolC .. => by simp [sem, inv, declTags_cons, isDeclTag]
+  | .charC .. => by simp [sem, inv, declTags_cons, isDeclTag]
+  | .stringC .. => by simp [sem, inv, declTags_cons, isDeclTag]
+  | .arrayE _ len exprs => by
+      simp only [sem, inv]
+      split <;> simp [declTags_cons, isDeclTag, declTags_semL exprs]
+  | .variable _ => by simp [sem, inv, declTags_cons, isDeclTag]
+  | .binop _ l r _ => by simp [sem, inv, declTags_cons, declTags_append, isDeclTag, declTags_sem l, declTags_sem r]
+  | .cond c t f _ => by simp [sem, inv, declTags_append, declTags_sem c, declTags_sem t, declTags_sem f]
+  | .isE e _ _ => by simp [sem, inv, declTags_cons, declTags_append, isDeclTag, declTags_sem e]
+  | .newE _ args _ => by simp [sem, inv, declTags_cons, isDeclTag, declTags_semL args]
+  | .fieldAccess e _ => by simp [sem, inv, declTags_cons, declTags_append, isDeclTag, declTags_sem e]
+  | .call _ args receiver targs ci _ => by
+      simp only [sem, inv, declTags_append, declTags_cons, declTags_semO receiver, declTags_semL args]
+      by_cases hc : (!ci && !targs.isEmpty) = true <;> simp [hc, declTags_cons, isDeclTag]
+  | .assign _ expr receiver => by
+      simp [sem, inv, declTags_cons, declTags_append, isDeclTag, declTags_semO receiver, declTags_sem expr]
+theorem declTags_semL : ∀ ns : List Node, declTags (semL ns) = invL ns
+  | [] => rfl
+  | x :: xs => by simp only [semL, invL, declTags_append, declTags_sem x, declTags_semL xs]
+theorem declTags_semO : ∀ x : Option Node, declTags (semO x) = invO x
+  | none => rfl
+  | some x => by simp only [semO, invO, declTags_sem x]
+theorem declTags_semOL : ∀ x : Option (List Node), declTags (semOL x) = invOL x
+  | none => rfl
+  | some xs => by simp only [semOL, invOL, declTags_semL xs]
+end
+
+mutual
+theorem noOther_sem : ∀ n : Node, noOther (sem n) = true
+  | .block body _ => by simp only [sem, noOther_semL body]
+  | .superInst _ args => by simp [sem, noOther_semOL args]
+  | .classDecl _ _ _ fields supers funcs tps => by
+      simp [sem, noOther_semL fields, noOther_semL supers, noOther_semL funcs, noOther_tparams]
+  | .varDecl _ expr _ vt _ => by cases vt <;> simp [sem, noOther_sem expr]
+  | .callArg expr name => by
+      simp only [sem, noOther_append, noOther_sem expr]
+      split
+      · split <;> simp
+      · simp
+  | .fieldDecl .. => by simp [sem]
+  | .paramDecl _ _ _ dflt => by simp [sem, noOther_semO dflt]
+  | .funcDecl _ params rt _ body _ _ tps _ => by
+      cases rt <;> simp [sem, noOther_semL params, noOther_semO body, noOther_tparams]
+  | .lambda _ params rt body _ => by
+      cases rt <;> cases hb : isBlock (some body) <;> simp [sem, hb, noOther_semL params, noOther_sem body]
+  | .funcRef _ receiver _ => by simp [sem, noOther_semO receiver]
+  | .bottom t => by cases t <;> simp [sem]
+  | .intC .. => by simp [sem]
+  | .realC .. => by simp [sem]
+  | .boolC .. => by simp [sem]
+  | .charC .. => by simp [sem]
+  | .stringC .. => by simp [sem]
+  | .arrayE _ len exprs => by
+      simp only [sem]
+      split <;> simp [noOther_semL exprs]
+  | .variable _ => by simp [sem]
+  | .binop _ l r _ => by simp [sem, noOther_sem l, noOther_sem r]
+  | .cond c t f _ => by simp [sem, noOther_sem c, noOther_sem t, noOther_sem f]
+  | .isE e _ _ => by simp [sem, noOther_sem e]
+  | .newE _ args _ => by simp [sem, noOther_semL args]
+  | .fieldAccess e _ => by simp [sem, noOther_sem e]
+  | .call _ args receiver targs ci _ => by
+      simp only [sem, noOther_append, noOther_cons, noOther_semO receiver, noOther_semL args]
+      split <;> simp
+  | .assign _ expr receiver => by simp [sem, noOther_semO receiver, noOther_sem expr]
+theorem noOther_semL : ∀ ns : List Node, noOther (semL ns) = true
+  | [] => rfl
+  | x :: xs => by simp only [semL, noOther_append, noOther_sem x, noOther_semL xs, Bool.and_self]
+theorem noOther_semO : ∀ x : Option Node, noOther (semO x) = true
+  | none => rfl
+  | some x => by simp only [semO, noOther_sem x]
+theorem noOther_semOL : ∀ x : Option (List Node), noOther (semOL x) = true
+  | none => rfl
+  | some xs => by simp only [semOL, noOther_semL xs]
+end
+
+end Heph.TransKotlin
